@@ -182,7 +182,12 @@ def generate(cls, rng):
                                     "empty_time", "lower_rule", "two_signs",
                                     "leading_digit", "dot_offset",
                                     "unicode_letter", "unicode_letter2",
-                                    "time_four_fields"])])
+                                    "time_four_fields", "no_std", "no_std"])])
+        elif r < 0.945:
+            # an abbreviation and nothing else (the offset is missing): to
+            # be refused, or read as that name at offset 0 -- nothing else
+            ops.append(["name_only", rng.choice(["UTC", "GMT", "EST", "WET",
+                                                 "XYZT"])])
         elif r < 0.97:
             ops.append(["gmt_plus", rng.choice(["GMT", "UTC"]),
                         rng.choice([-11, -3, 1, 3, 9]), rng.random() < 0.5])
@@ -416,6 +421,10 @@ MALFORMERS = {
     "unicode_letter": lambda s: s[:1] + "\u00c9" + s[1:],
     "unicode_letter2": lambda s: s[:2] + "\u6771" + s[2:],
     "dot_offset": lambda s: _re.sub(r"([0-9]+)", r"\1.5", s, count=1),
+    # the standard part (name and offset) is missing altogether
+    # (the EMPTY string is not malformed: it is GNU's spelling of UTC and
+    # tzstr('') is pinned by the repository's own tests)
+    "no_std": lambda s: s[s.index(","):] if "," in s else ",M3.2.0,M11.1.0",
 }
 
 
@@ -654,6 +663,28 @@ def execute(cls, scenario, ctx):
                 else:
                     ctx.violation("C08.malformed_accepted",
                                   dict(text=bad, how=how, got=repr(z)))
+            elif k == "name_only":
+                text = op[1]
+                ctx.checks += 1
+                try:
+                    z = env.tz.tzstr(text)
+                    got = [observe(z, t) for t in (1700000000, 1689000000)]
+                except ValueError:
+                    ctx.probe("name_only_refused")
+                except (Deadlock, BudgetExceeded):
+                    raise
+                except Exception as e:
+                    ctx.violation("C08.construct_raises",
+                                  dict(tz=text, zone_kind="tzstr",
+                                       exc=type(e).__name__,
+                                       msg=str(e)[:160]))
+                else:
+                    ctx.probe("name_only_fixed_zero")
+                    if any(g[0] != 0 or g[1] != text or g[2] not in (0, None)
+                           for g in got):
+                        ctx.violation("C08.wrong_answer",
+                                      dict(tz=text, zone_kind="tzstr",
+                                           got=got, want=[0, text, 0]))
             elif k == "gmt_plus":
                 _, word, hh, posix = op
                 text = "%s%+d" % (word, hh)
